@@ -92,6 +92,19 @@ CHECKS = {
         note='Depth 2 family in the quick tier (12.7k programs incl. contexts), depth 3 in the thorough tier; random programs '
              'to depth 6 / 8. Label names are classified as reserved by their __bareScript prefix in alpha.',
         ref='DESIGN.md 5 C07'),
+    'C02': dict(
+        technique='TLA+ two-layer spec of expression syntax (reference PrecTree vs the parser\'s ReorderStep fold) + TLC model '
+                  'checking over all operator chains (MC_ExprSyntax) + TLC comparison of real parse_expression trees with '
+                  'Denote(flat) and of accept/reject with the token grammar (Trace_Expr)',
+        text='TLC takes the parser\'s fold-with-rotation one operator per step over all 14^k chains (k <= 4; 5 thorough) and checks '
+             'SpineOrdered, equality with PrecTree on every prefix and at the end. Every chain up to length 3 (4 thorough) x operand '
+             'forms (atom, -a, !a, group, call) x layouts, sampled longer chains, random flat expressions to depth 8 (number '
+             'spellings, both string quotings with escapes, bracketed names, calls, groups) are parsed by the real '
+             'parse_expression and the tree must equal Denote(flat) computed by TLC; random token strings must be accepted iff '
+             'the token-level grammar accepts them, rejections must be BareScriptParserError.',
+        note='Lexing is specified at token level with a fixed rendering (unary minus binds before a signed number literal; a '
+             'name of >= 2 characters followed by "(" opens a call).',
+        ref='DESIGN.md 5 C02'),
 }
 
 NOT_YET = 'check not built yet in this round (work in progress; see DESIGN.md section 9 build order)'
